@@ -825,10 +825,18 @@ func (e *Exec) doRef(c *Cmd) string {
 	zs, isSeg := s.seg.(*zap.Segment)
 	switch c.Pos[0] {
 	case "addref":
-		s.seg.AddRef()
+		for k := c.num("n", 1); k > 0; k-- {
+			s.seg.AddRef()
+		}
 		return "ok"
 	case "decref":
-		return errKind(s.seg.DecRef())
+		var err error
+		for k := c.num("n", 1); k > 0; k-- {
+			if e1 := s.seg.DecRef(); e1 != nil {
+				err = e1
+			}
+		}
+		return errKind(err)
 	case "close":
 		return errKind(s.seg.Close())
 	case "sabotage":
